@@ -10,9 +10,10 @@ package art
 
 func init() { vpRegister("hCompound", hCompound) }
 
+// ids 8..71 have concrete two-byte encodings {0x30, 3*id+1} (fan-out bases); ids 0..7 symbolic ones
 type tableCodec struct {
-	tab     [8][]byte
-	defined [8]bool
+	tab     [72][]byte
+	defined [72]bool
 }
 
 func (c *tableCodec) Transform(id int) ([]byte, []byte) {
@@ -34,9 +35,14 @@ func (c *tableCodec) Restore(b []byte) int {
 func (c *tableCodec) define(spec int) int {
 	id := spec & 15
 	n := (spec >> 4) & 0xff
+	if spec&(1<<20) != 0 {
+		id = spec & 0xff
+	}
 	if !c.defined[id] {
 		var e []byte
-		if spec&(1<<12) != 0 {
+		if id >= 8 {
+			e = []byte{0x30, byte(3*id + 1)}
+		} else if spec&(1<<12) != 0 {
 			// stemmed 14-byte encoding: symbolic bytes at positions 0, 6, 12, 13, concrete bytes in between —
 			// two fields' worth of key with long shared runs (compressed paths beyond the inline limit below a branch)
 			n = 14
@@ -81,7 +87,7 @@ func hkTable() *hk[int] {
 		},
 		newTree: func() Tree[int, uint64] { return NewCompoundTree[int, uint64](c) },
 		newKey:  c.define,
-		concKey: c.define,
+		concKey: func(spec int) int { return c.define(spec | 1<<20) },
 		clone:   func(k int) int { return k },
 		eq:      func(a, b int) bool { return a == b },
 		less:    func(a, b int) bool { return vpLessBytes(enc(a), enc(b)) },
